@@ -5,6 +5,7 @@
    assignment (a latency assignment only selects an interleaving of the visible events). *)
 From Oras Require Import Base.Prelude Generated.GC04 Model.CopySpec Model.CopyTop Model.CopyOpt
   Proofs.CopySpec Proofs.CopyAcct Proofs.CopyOpt Proofs.CopyAbort.
+From Oras Require Import Model.CopyHold Proofs.CopyHold.
 Local Open Scope nat_scope.
 From Oras Require Model.CopyImpl Proofs.CopyImplBase Properties.C02_protocol.
 
@@ -315,3 +316,52 @@ Theorem C04_single_upload :
     accepts g c d0 tr = Some st -> cnt (is_upload n) tr <= 1.
 Proof. exact upload_once_lemma. Qed.
 Print Assumptions C04_single_upload.
+
+(* ---- the permit-holding overlay (Model/CopyHold.v): the intervals during which a task holds a
+   permit of the limiter, as far as the visible events show them -- a LEAF keeps its permit from
+   dst.Exists to the end of its task (copyGraph.fn calls region.End() only for nodes with
+   successors), a non-leaf gives it up while its successors run and re-acquires it (region.Start())
+   before PreCopy / MountFrom.  C04's runner replays every recorded trace on this overlay. ---- *)
+
+(* the overlay only strengthens the guard: what it accepts, the transition system accepts -- so
+   every theorem above applies to the traces the runner accepts *)
+Theorem C04_overlay_refines :
+  forall (g : graph) (c : cfg) (d0 : list node) (tr : list event) (st : state),
+    accepts_h g c d0 tr = Some st -> accepts g c d0 tr = Some st.
+Proof. exact accepts_h_accepts. Qed.
+Print Assumptions C04_overlay_refines.
+
+Theorem C04_overlay_refines_any_callbacks :
+  forall (cs : cbset) (g : graph) (c : cfg) (d0 : list node) (tr : list event) (st : state)
+         (full : list event),
+    accepts_opt_h cs g c d0 tr = Some (st, full) -> accepts_opt cs g c d0 tr = Some (st, full).
+Proof. exact accepts_opt_h_accepts_opt. Qed.
+Print Assumptions C04_overlay_refines_any_callbacks.
+
+(* at every instant at most K permits are held, and the source reads and destination operations in
+   flight are covered by the permits held *)
+Theorem C04_permits_held_bounded :
+  forall (g : graph) (c : cfg) (d0 : list node) (tr1 tr2 : list event) (st : state),
+    accepts_h g c d0 (tr1 ++ tr2) = Some st ->
+    exists st1, accepts_h g c d0 tr1 = Some st1 /\ holders g st1 <= c_K c /\
+                inflight_src g st1 <= holders g st1 /\ inflight_dst g st1 <= holders g st1.
+Proof. exact holders_prefix_lemma. Qed.
+Print Assumptions C04_permits_held_bounded.
+
+Theorem C04_permits_held_bounded_any_callbacks :
+  forall (cs : cbset) (g : graph) (c : cfg) (d0 : list node) (tr1 tr2 : list event) (st : state)
+         (full : list event),
+    accepts_opt_h cs g c d0 (tr1 ++ tr2) = Some (st, full) ->
+    exists st1 f1, accepts_opt_h cs g c d0 tr1 = Some (st1, f1) /\ holders g st1 <= c_K c /\
+                   inflight_src g st1 <= holders g st1 /\ inflight_dst g st1 <= holders g st1.
+Proof. exact holders_prefix_opt_lemma. Qed.
+Print Assumptions C04_permits_held_bounded_any_callbacks.
+
+(* the overlay is strictly tighter: with K = 1 a second blob cannot be probed while a leaf that was
+   found absent waits for its PreCopy (it holds the only permit) -- CopySpec alone accepts that
+   interleaving -- and the sequential run is accepted *)
+Example C04_overlay_is_tighter :
+  (exists st, accepts g_leaf c_leaf [] tr_leaf_bad = Some st) /\
+  accepts_h g_leaf c_leaf [] tr_leaf_bad = None /\
+  (exists st, accepts_h g_leaf c_leaf [] tr_leaf_ok = Some st /\ returned st = Some true).
+Proof. exact overlay_is_tighter. Qed.
